@@ -117,7 +117,9 @@ def with_tail(b, rng=None):
     if rng is not None and rng.random() < 0.5:
         # MCBreak / MCReloadFail: the file disappears and a reload fails before the corrected file is written
         mid = [{'a': 'BreakFile'}, {'a': 'Reload'}]
-    b['steps'] = [b['steps'][0]] + mid + [{'a': 'EditPolicy', 'policy': cur}, {'a': 'Reload'}, {'a': 'Call', 'call': dict(c)}]
+    how = rng.choice(['inplace', 'rename']) if rng is not None else 'inplace'   # MCEdit: written in place / renamed over
+    b['steps'] = [b['steps'][0]] + mid + [{'a': 'EditPolicy', 'policy': cur, 'how': how}, {'a': 'Reload'},
+                                          {'a': 'Call', 'call': dict(c)}]
     return b
 
 
@@ -155,19 +157,38 @@ def visible_variant(b):
     return nb
 
 
+def warmup_variant(b):
+    """MC_Authz!MCOther, in the order that matters for a decision that leaks between triples: first the ENTITLED
+    client makes the request on the other user stream (granted), then the client without the entry makes the same
+    request on this one.  The harness's real names are chosen so that the two (client, resource) pairs read the same
+    when glued together (svc + eu.b7s / svc.eu + b7s)."""
+    import copy
+    nb = copy.deepcopy(b)
+    c = nb['steps'][0]['call']
+    if c['m'] in GROUP_METHODS or c['m'] == 'FetchMetadata' or c['s'] == SYS:
+        return None
+    c['c'], c['s'] = 'bob', 's1'
+    warm = dict(c, c='alice', s='s2')
+    entry = ['bob', resource_of(c), action_of(c['m'])]
+    nb['cfg']['policy'] = sorted(e for e in ALL_ENTRIES if e != entry)
+    nb['steps'] = [{'a': 'Call', 'call': warm}, {'a': 'Call', 'call': c}]
+    return nb
+
+
 def to_behaviour(bid, sim):
     b0 = sim[0]['body']
     sv = core.tlaval.state_var
     st = sv(b0, 'st')
     cfg = {'st': st, 'cursors': sv(b0, 'cursors'), 'members': sorted(tla_set(sv(b0, 'members'))),
-           'policy': entries(sv(b0, 'policy'))}
+           'policy': entries(sv(b0, 'policy')), 'clientAuth': sv(b0, 'clientAuth'), 'enforcer': sv(b0, 'enforcer')}
     steps = []
     for s in sim[1:]:
         a = s['last']['a']
         if a == 'Call':
             steps.append({'a': 'Call', 'call': s['last']['call']})
         elif a == 'EditPolicy':
-            steps.append({'a': 'EditPolicy', 'policy': entries(sv(s['body'], 'policyFile'))})
+            steps.append({'a': 'EditPolicy', 'policy': entries(sv(s['body'], 'policyFile')),
+                          'how': s['last'].get('how', 'inplace')})
         elif a == 'BreakFile':
             steps.append({'a': 'BreakFile'})
         else:
@@ -254,7 +275,11 @@ def run(rep, tier, seed, replay):
         mode = behaviours[0]['cfg'].get('mode', '')
         with core.scratch('c15') as d:
             if mode.startswith('tls'):
-                env = {'VERIF_C15_ENFORCER': mode[4:]} if mode.startswith('tls-') else None
+                env = None
+                if mode == 'tls-authoff':
+                    env = {'VERIF_C15_CLIENTAUTH': 'off'}
+                elif mode.startswith('tls-'):
+                    env = {'VERIF_C15_ENFORCER': mode[4:]}
                 trace, methods, lines = execute(d, behaviours, test='^TestVerifC15TLS$', env=env)
             else:
                 trace, methods, lines = execute(d, behaviours)
@@ -282,6 +307,10 @@ def run(rep, tier, seed, replay):
     nsim = 2500 if tier == 'quick' else 12000
     sims = core.tlc_simulate('MC_Authz.tla', 'Sim_Authz.cfg', nsim, 5, seed, timeout=1200)
     cands = [to_behaviour(n + 1, s) for n, s in enumerate(sims) if len(s) > 1]
+    # the in-process driver stands for callers with a verified certificate on a server that verifies them and has an
+    # enforcer; the other credentials / configuration routes are driven over real TLS (stages below)
+    cands = [b for b in cands if b['cfg']['clientAuth'] and b['cfg']['enforcer']
+             and all(s['a'] != 'Call' or s['call']['cred'] == 'verified' for s in b['steps'])]
     phases['simulate'] = round(time.time() - t0, 1)
     by_stratum = {}
     for b in cands:
@@ -314,6 +343,9 @@ def run(rep, tier, seed, replay):
                 def random(self):
                     return 1.0
             v = sharpen(v, _Always())
+            w = warmup_variant(v)
+            if w is not None:
+                extra.append(w)
             seen_shape.add(k)
             extra.append(v)
     chosen += extra
@@ -354,6 +386,22 @@ def run(rep, tier, seed, replay):
             if seen_m.get(m, 0) < (3 if tier == 'quick' else 12):
                 seen_m[m] = seen_m.get(m, 0) + 1
                 pick.append(b)
+        # how the caller authenticates (Authz!Creds): against the policy that grants EVERYTHING, a caller with a
+        # self-signed certificate claiming the client's name, or with no certificate, must be refused
+        first_by_m = {}
+        for b in tls_b:
+            first_by_m.setdefault(b['steps'][0]['call']['m'], b)
+
+        def cred_behaviours(creds):
+            out = []
+            for k, (m, b) in enumerate(sorted(first_by_m.items())):
+                v = visible_variant(b) or copy.deepcopy(b)
+                v['steps'] = [v['steps'][0]]
+                v['steps'][0]['call']['cred'] = creds[k % len(creds)]
+                v['cfg']['policy'] = list(ALL_ENTRIES)
+                out.append(v)
+            return out
+        pick += cred_behaviours(['forged', 'none'])
         for n, b in enumerate(pick):
             b['id'] = 100000 + n
             b['cfg']['mode'] = 'tls'
@@ -385,6 +433,18 @@ def run(rep, tier, seed, replay):
             noenf += grp
         stats['noenf'] = len(noenf)
         chosen += noenf
+        # configuration route "authorisation on, client certificates not verified" (tls.client.auth.enabled off):
+        # nobody has a verified identity, so every call must be refused whatever certificate is shown
+        authoff = cred_behaviours(['forged', 'forged', 'verified', 'none'])
+        for n, b in enumerate(authoff):
+            b['id'] = 300000 + n
+            b['cfg']['mode'] = 'tls-authoff'
+            b['cfg']['clientAuth'] = False
+        if authoff:
+            trace5, _, lines5 = execute(d, authoff, test='^TestVerifC15TLS$', env={'VERIF_C15_CLIENTAUTH': 'off'})
+            judge(rep, trace5, lines5, authoff, stats)
+        stats['authoff'] = len(authoff)
+        chosen += authoff
     if stats.get('drifting'):
         core.write_json(os.path.join(core.BUILD, 'drift-C15.json'), {'replay': {'behaviours': stats['drifting'][:20]}})
     phases['judge'] = round(time.time() - t0, 1)
@@ -394,6 +454,7 @@ def run(rep, tier, seed, replay):
     rep.cov['model_methods_missing_in_api'] = missing
     rep.cov['behaviours_over_tls'] = stats.get('tls', 0)
     rep.cov['behaviours_without_enforcer'] = stats.get('noenf', 0)
+    rep.cov['behaviours_without_client_cert_verification'] = stats.get('authoff', 0)
     rep.cov['strata_available'] = len(by_stratum)
     rep.cov['strata_executed'] = len({stratum(b) for b in chosen if b['steps'][0]['call']['m'] in MODEL_METHODS})
     rep.cov['traces_validated_against_impl'] = len(chosen)
